@@ -6,7 +6,8 @@ from .. import absfont, gen, layout_gen, project
 PROPERTY = "C11"
 TRACE_MODULE = "NamesTrace"
 TRACE_CFG = "NamesTrace.cfg"
-RULE = ("random glyph-name sets (suffixes, ligature underscores, names colliding with generated uniXXXX / '.N' names, names longer "
+RULE = ("random glyph-name sets (suffixes, ligature underscores, names colliding with generated uniXXXX / '.N' names incl. chains "
+        "where the de-duplicated name N.1 itself collides with a later glyph, names longer "
         "than 63 characters) x public.postscriptNames maps (duplicates, empty values, illegal characters, > 63 characters) x lib "
         "switches (useProductionNames, keepGlyphNames, the Glyphs legacy key) and the argument x {TTF, CFF, CFF2}, with kerning, "
         "GSUB and cmap present so that every table refers to glyph indices; both fonts are saved and every table's raw bytes are "
@@ -30,6 +31,15 @@ def cases(tier, seed):
     out = []
     for k in range(n):
         items = rng.sample(POOL, rng.randint(3, 10))
+        if rng.random() < 0.3:
+            # a chain of collisions: X gets the generated name N, Y is literally named N (made unique as N.1) and a glyph
+            # literally named N.1 comes later still (and sometimes N.1.1 / N.2 after that)
+            chain = [("a-cy", 0x430), ("uni0430", None), ("uni0430.1", None)] + rng.sample([("uni0430.1.1", None), ("uni0430.2", None)], rng.randint(0, 2))
+            if rng.random() < 0.3:
+                rng.shuffle(chain)
+            items = [it for it in items if it[0] not in {c[0] for c in chain}]
+            pos = rng.randint(0, len(items))
+            items[pos:pos] = chain
         names = [nm for nm, _ in items]
         glyphs = {}
         for nm, cp in items:
